@@ -222,7 +222,21 @@ func init() {
 		fr.ex.cfgPreemptFn(strArg(fr, a[0]))
 		return nil
 	})
-	reg(vfPkg+".Slow", func(fr *frame, a []value) value { return nil })
+	// Slow: the caller pauses for longer than any lock lease.  Everybody else runs as
+	// far as they can, those who are then waiting with a timeout (lock waiters) give up,
+	// and run on; then the caller continues.
+	reg(vfPkg+".Slow", func(fr *frame, a []value) value {
+		ex := fr.ex
+		ex.quiesce()
+		for _, o := range ex.gors {
+			if o != ex.cur && !o.done && o.canTimeout && o.blocked != nil {
+				o.timedOut = true
+				o.blocked = nil
+			}
+		}
+		ex.quiesce()
+		return nil
+	})
 	reg(vfPkg+".Yield", func(fr *frame, a []value) value { fr.ex.preemptPoint(); return nil })
 	reg(vfPkg+".Concretize", func(fr *frame, a []value) value {
 		return int(fr.ex.asIntC(a[0], "vf.Concretize"))
@@ -303,12 +317,7 @@ func init() {
 	reg("runtime.Gosched", func(fr *frame, a []value) value { return nil })
 	reg("runtime.SetFinalizer", func(fr *frame, a []value) value { return nil })
 	reg("runtime.KeepAlive", func(fr *frame, a []value) value { return nil })
-	reg("time.Now", func(fr *frame, a []value) value { return zeroResult(fr.fn) })
 	reg("time.Sleep", func(fr *frame, a []value) value { fr.ex.quiesce(); return nil })
-	reg("time.Since", func(fr *frame, a []value) value { return int64(0) })
-	reg("(time.Time).UnixNano", func(fr *frame, a []value) value { return int64(0) })
-	reg("(time.Time).Unix", func(fr *frame, a []value) value { return int64(0) })
-	reg("(time.Time).Sub", func(fr *frame, a []value) value { return int64(0) })
 	reg("(time.Time).String", func(fr *frame, a []value) value { return "<time>" })
 	reg("(time.Time).Format", func(fr *frame, a []value) value { return "<time>" })
 	reg("(time.Duration).String", func(fr *frame, a []value) value { return "<duration>" })
@@ -466,13 +475,13 @@ func init() {
 		return tuple{b, ok}
 	})
 	reg("strings.ToUpper", func(fr *frame, a []value) value {
-		if isUIDSym(a[0]) {
+		if isUIDSym(a[0]) && uidFoldEnabled {
 			return symv{fr.ex.uidMapBytes(a[0].(symv).T, 'a', 'z', -32)}
 		}
 		return strings.ToUpper(strArg(fr, a[0]))
 	})
 	reg("strings.ToLower", func(fr *frame, a []value) value {
-		if isUIDSym(a[0]) {
+		if isUIDSym(a[0]) && uidFoldEnabled {
 			return symv{fr.ex.uidMapBytes(a[0].(symv).T, 'A', 'Z', 32)}
 		}
 		return strings.ToLower(strArg(fr, a[0]))
